@@ -83,14 +83,14 @@ def matches_golden(golden, run, ignore_out, ignore_err, match_out, match_err):
     if not ignore_out or not ignore_err:
         if not ignore_out:
             if match_out:
-                if match_out not in run.out:
+                if run.out is None or match_out not in run.out:
                     return False
             else:
                 if golden.out != run.out:
                     return False
         if not ignore_err:
             if match_err:
-                if match_err not in run.err:
+                if run.err is None or match_err not in run.err:
                     return False
             else:
                 if golden.err != run.err:
@@ -166,15 +166,17 @@ def do_golden_runs():
         logging.info(f'ignoring stderr')
     if options.args().match_out:
         logging.info(f'match (stdout): "{options.args().match_out}"')
-        if not options.args().unchecked \
-                and options.args().match_out not in __GOLDEN.out:
+        if not options.args().unchecked and (
+                __GOLDEN.out is None
+                or options.args().match_out not in __GOLDEN.out):
             logging.error(
                 f'Expected stdout to match "{options.args().match_out}"')
             sys.exit(1)
     if options.args().match_err:
         logging.info(f'match (stderr): "{options.args().match_err}"')
-        if not options.args().unchecked \
-                and options.args().match_err not in __GOLDEN.err:
+        if not options.args().unchecked and (
+                __GOLDEN.err is None
+                or options.args().match_err not in __GOLDEN.err):
             logging.error(
                 f'Expected stderr to match "{options.args().match_err}"')
             sys.exit(1)
